@@ -11,7 +11,24 @@ import attrs
 from lsprotocol import converters
 from lsprotocol import types as T
 
-conv = converters.get_converter()
+
+
+def _make_converter():
+    """VERIF_CONV_CFG selects how the converter under test is created (C19: every configuration must behave alike on valid input)"""
+    import os
+    cfg = os.environ.get("VERIF_CONV_CFG", "")
+    if cfg in ("nodetail", "detail", "user"):
+        import cattrs
+        base = {"nodetail": lambda: cattrs.Converter(detailed_validation=False), "detail": lambda: cattrs.Converter(detailed_validation=True),
+                "user": lambda: cattrs.Converter()}[cfg]()
+        return converters.get_converter(base)
+    if cfg == "third":
+        converters.get_converter()
+        converters.get_converter()
+    return converters.get_converter()
+
+
+conv = _make_converter()
 
 
 def dump(v):
